@@ -6,7 +6,6 @@ Definition tokens_u := tokens isspace_u isword_u.
 Definition trim_u := trim isspace_u.
 From Adeu Require Import Doc Norm Prims ParaMachine Project.
 (* character classes used by the paragraph-prefix heuristic (ASCII + Latin-1 letters) *)
-Definition islower_u (c : char) : bool := in_rng 97 122 c || N.eqb c 181 || in_rng 223 246 c || in_rng 248 255 c.
 Definition other_text_u (t : N) : str := if N.eqb t 4 then map N.of_nat [108;105;110;107] else [].   (* the generator's hyperlink reads "link" *)
 Definition doc_spans_u := doc_spans isspace_u isupper_u islower_u other_text_u.
 Definition extract_u := extract isspace_u isupper_u islower_u other_text_u.
